@@ -1,4 +1,5 @@
 import PySMT.Proofs.WalkerInst
+import PySMT.Proofs.WalkerCross
 import PySMT.Impl.Subst
 
 /-! `Substituter` (push override at quantifiers) as an instance of `walk_eq_fold_direct`. -/
@@ -45,11 +46,55 @@ theorem substG_fold (ms : Bool) (h : FnHandler) (σ : TMap) (t : Term) :
     is not carried out.)  Below quantifier-free terms the statement is unconditional. -/
 theorem substitute_walk_eq_partial {M E : Type} [MemoLike M Term Term] [LawfulMemo M Term Term]
     (ms : Bool) (h : FnHandler) (σ : TMap) (inval shortcut : Bool) (fuel : Nat) (t : Term) (s : WState M Term)
-    (hi : FoldIdle (fun n => n.op.isQuantifier) (substG ms h σ) s) (hfuel : 2 * t.size ≤ fuel) :
+    (hi : FoldIdle (fun n => n.op.isQuantifier) (substG ms h σ) s) (hfuel : dagBound t ≤ fuel) :
     let r := walk termGraph (fun n => n.op.isQuantifier) (fun _ => cbOf (E := E) (substCb ms h σ))
                inval shortcut fuel t s
-    r.1 = .ok (substG ms h σ t) ∧ FoldIdle (fun n => n.op.isQuantifier) (substG ms h σ) r.2 :=
+    r.1 = .ok (substG ms h σ t) ∧ (r.2.iters ≤ s.iters + dagBound t ∧ r.2.pushes ≤ s.pushes + dagBound t) ∧
+    FoldIdle (fun n => n.op.isQuantifier) (substG ms h σ) r.2 :=
   walk_eq_fold_direct (fun n => n.op.isQuantifier) (substCb ms h σ) (substG ms h σ) (substG_fold ms h σ)
     inval shortcut fuel t s hi hfuel
+
+theorem foldIdle_of_blank {M R : Type} [MemoLike M Term R] [LawfulMemo M Term R] (d : Term → Bool) (F : Term → R)
+    (s : WState M Term) (hb : Blank s) : FoldIdle d F s :=
+  { ok := fun n r hr => (by rw [hb.memo n] at hr; cases hr)
+    down := fun n hn => (by rw [hb.memo n] at hn; cases hn)
+    stack := hb.stack }
+
+/-- **substitute_maps_indep_partial** (C14; review §4.1): the environment's one substituter object (one-shot memo)
+    used with maps σ₁, σ₂, … in a row: the i-th call returns `substG … σᵢ tᵢ` -- the result for its own map, not
+    influenced by the maps used before -- and leaves the substituter blank.
+    `_partial` for the same reason as `substitute_walk_eq_partial` (the nested sub-substituter at quantifiers). -/
+theorem substitute_maps_indep_partial {M E : Type} [MemoLike M Term Term] [LawfulMemo M Term Term]
+    (ms : Bool) (h : FnHandler) (shortcut : Bool) (fuel : Nat) (qs : List (TMap × Term))
+    (hfuel : ∀ q ∈ qs, dagBound q.2 ≤ fuel) (s : WState M Term) (hb : Blank s) :
+    (walksF termGraph (fun n => n.op.isQuantifier) true shortcut fuel
+        (qs.map (fun q => ((fun _ => cbOf (E := E) (substCb ms h q.1)), q.2))) s).1
+      = qs.map (fun q => WOut.ok (substG ms h q.1 q.2)) ∧
+    Blank (walksF termGraph (fun n => n.op.isQuantifier) true shortcut fuel
+        (qs.map (fun q => ((fun _ => cbOf (E := E) (substCb ms h q.1)), q.2))) s).2 := by
+  induction qs generalizing s with
+  | nil => exact ⟨rfl, hb⟩
+  | cons q qs ih =>
+    have hq := (walk_eq_fold_direct (E := E) (fun n => n.op.isQuantifier) (substCb ms h q.1) (substG ms h q.1)
+      (substG_fold ms h q.1) true shortcut fuel q.2 s (foldIdle_of_blank _ _ s hb) (hfuel q List.mem_cons_self)).1
+    have hb' := walk_blank_of_blank termGraph (fun n => n.op.isQuantifier)
+      (fun _ => cbOf (E := E) (substCb ms h q.1)) shortcut fuel q.2 s hb
+    obtain ⟨h1, h2⟩ := ih (fun q' hq' => hfuel q' (List.mem_cons_of_mem _ hq')) _ hb'
+    simp only [List.map_cons, walksF]
+    exact ⟨by rw [hq, h1], h2⟩
+
+/-- **probe_after_failed_substitute_partial** (C15; review §4.1): the exact scenario of the property text.  After a
+    `substitute` on the shared substituter that failed -- ANY callbacks `fbad`: an ill-typed map raising deep in the
+    DAG, an injected fault --, substitutions with other maps return what they return on a new substituter. -/
+theorem probe_after_failed_substitute_partial {M E : Type} [MemoLike M Term Term] [LawfulMemo M Term Term]
+    (ms : Bool) (h : FnHandler) (fbad : List Term → Term → List Term → Except E Term) (shortcut : Bool)
+    (fuelBad fuel : Nat) (b : Term) (qs : List (TMap × Term)) (hfuel : ∀ q ∈ qs, dagBound q.2 ≤ fuel)
+    (s : WState M Term) (hb : Blank s) :
+    (walksF termGraph (fun n => n.op.isQuantifier) true shortcut fuel
+        (qs.map (fun q => ((fun _ => cbOf (E := E) (substCb ms h q.1)), q.2)))
+        (walk termGraph (fun n => n.op.isQuantifier) fbad true shortcut fuelBad b s).2).1
+      = qs.map (fun q => WOut.ok (substG ms h q.1 q.2)) :=
+  (substitute_maps_indep_partial ms h shortcut fuel qs hfuel _
+    (walk_blank_of_blank termGraph _ fbad shortcut fuelBad b s hb)).1
 
 end PySMT.Walker
